@@ -73,11 +73,15 @@ class NumberType(Type):
         """
         if unit:
             if self.unit and self.unit!=unit:
+                isarray = isinstance(self.value, (list, np.ndarray))
+                number = np.array(self.value, dtype=float) if isarray else float(self.value)
                 if env is None:
-                    self.value = Quantity(float(self.value), self.unit).value(unit)
+                    self.value = Quantity(number, self.unit).value(unit)
                 else:
                     with UnitEnvironment(env.units):
-                        self.value = Quantity(float(self.value), self.unit).value(unit)
+                        self.value = Quantity(number, self.unit).value(unit)
+                if isarray:
+                    self.value = self.value.tolist()
                 self.unit = unit
         return self
  
